@@ -12,7 +12,8 @@ PROP = 'C18'
 EXHAUSTIVE = True
 RULE = ('3 editions x {clear_dtc with/without memory selection, read_dtc_information subfunction 0..0xFF (all parameters supplied), '
         'communication_control types 0..7 x node id present/absent, change_session replies of length 1..8}; edition values '
-        '{2006,2013,2020,0,-1,1999,2007,2012,2014,2019,2021,20200} at construction and through set_config. '
+        '{2006,2013,2020,0,-1,1999,2007,2012,2014,2019,2021,20200} at construction and through set_config / set_configs, histories of configuration changes '
+        'after a refused edition (other entries, re-stated values). '
         'non-trivial = every case (distinct case lines)')
 ASSUMPTIONS = []
 DTC_2020 = {0x16, 0x17, 0x18, 0x19, 0x1A, 0x42, 0x55, 0x56}
@@ -54,6 +55,10 @@ def gen_cases(tier, seed):
             cfgv[cl.STD] = std
             h = cl.H(cfgv).set_cfg(cl.REQ_TO, 3000000).set_cfg(cl.STD, v).set_cfg(cl.REQ_TO, 4000000).set_cfg(cl.P2, 500000)
             h.set_cfg(cl.TOL_PAD, 0).set_cfg(cl.STD, 2013).set_cfg(cl.P2S, 6000000).set_cfg(cl.EX_NEG, 0)
+            yield h.case(5000, 'later configuration changes')
+            # ... also a change that writes the value an entry already has (the refused edition once more, another entry re-stated)
+            h = cl.H(cfgv).set_cfg(cl.REQ_TO, 3000000).set_cfg(cl.STD, v).set_cfg(cl.STD, v).set_cfg(cl.REQ_TO, 3000000).set_cfg(cl.P2, cfgv[cl.P2])
+            h.set_cfg(cl.STD, 2013).set_cfg(cl.STD, 2013).set_cfg(cl.EX_NEG, cfgv[cl.EX_NEG])
             yield h.case(5000, 'later configuration changes')
 
 
